@@ -206,6 +206,7 @@ def run(rep: core.Report):
     _r11e(rep)
     _r11k(rep)
     _r11l(rep)
+    _r11m(rep)
     _r11f(rep, tu)
     _r11g(rep, tu, P)
     _r11h(rep, C)
@@ -605,6 +606,43 @@ def _r11l(rep):
     bound = rt(cast.kids(real[-3])[1]) if len(real) >= 3 else "?"
     rep.instance("R11l", PC, "phpy_tetrahedron_method_dos", f"tables: for p < {bound}: {shown}", ok_b and bound == pn[12],
                  "the pass over the mapping table does not open one entry (index, grid point, weight 1) per point that maps to itself and add 1 to the entry of the image for every other point, over all grid points: multiplicities or the grid-point -> entry table are wrong", line=tu.line(build[0]))
+
+
+
+def _r11m(rep):
+    """Which grid point a grid address names: the compiled index function and the Python reference use the same strides."""
+    from engine import celem
+
+    RG = "c/rgrid.c"
+    TM = "phonopy/phonon/tetrahedron_mesh.py"
+    rep.rule("R11m", "grid index of a grid address: index = address[0] + mesh[0] * address[1] + mesh[0] * mesh[1] * address[2] (component k strides over the product of the mesh numbers of the components below it) in the compiled look-up used for the tetrahedron vertices, and the default grid_order of the Python reference is [1, mesh[0], mesh[0] * mesh[1]]", 2)
+    tu = cast.load(RG, openmp=False)
+    fn = tu.functions.get("get_grid_index_single_mesh")
+    if fn is None:
+        raise AnalysisError("anchor vanished: get_grid_index_single_mesh in c/rgrid.c")
+    ex = celem.ElemExec(tu, where=RG)
+    st = celem.State(ex, "get_grid_index_single_mesh", {}, {}, 0)
+    ps = [p_["name"] for p_ in cast.params(fn)]
+    for nm in ps:
+        st.alias[nm] = nm
+    rets = [x for x in cast.walk(fn) if x.get("kind") == "ReturnStmt"]
+    if len(rets) != 1:
+        raise AnalysisError(f"get_grid_index_single_mesh: {len(rets)} return statements in the configured build, 1 expected")
+    e = sp.expand(st.expr(cast.kids(rets[0])[0]))
+    A, M = sp.Function(ps[0]), sp.Function(ps[1])
+    want = A(0) + M(0) * A(1) + M(0) * M(1) * A(2)
+    rep.instance("R11m", RG, "get_grid_index_single_mesh", f"returns {e}", sp.expand(e - want) == 0,
+                 f"the index of a grid address is {e}, not address[0] + mesh[0]*address[1] + mesh[0]*mesh[1]*address[2]: for mesh[0] != mesh[1] the vertices of the tetrahedra are looked up at other grid points than the ones the grid addresses (and the Python reference) name, and for mesh[1] > mesh[0] the index can pass the end of the table", line=tu.line(fn))
+    cls = core.find_def(TM, "TetrahedronMesh")
+    init = [m for m in cls.body if isinstance(m, ast.FunctionDef) and m.name == "__init__"]
+    lists = [x for x in ast.walk(init[0]) if isinstance(x, ast.List) and len(x.elts) == 3 and isinstance(getattr(x, "_parent", None), ast.Assign) and "grid_order" in core.src(x._parent.targets[0])] if init else []
+    if len(lists) != 1:
+        raise AnalysisError(f"{TM}: default grid order of TetrahedronMesh vanished")
+    got = [sp.expand(symalg.open_expr(core.src(x))) for x in lists[0].elts]
+    mname = [a.arg for a in init[0].args.args if a.arg == "mesh"]
+    m_ = symalg.open_expr("mesh[0]"), symalg.open_expr("mesh[1]")
+    rep.instance("R11m", TM, "TetrahedronMesh.__init__", f"default grid_order {core.src(lists[0])}", got == [sp.Integer(1), m_[0], sp.expand(m_[0] * m_[1])],
+                 "the default strides of the Python tetrahedron reference are not [1, mesh[0], mesh[0]*mesh[1]]", line=lists[0].lineno)
 
 
 # ---------------------------------------------------------------------------
@@ -1109,4 +1147,6 @@ def selftest():
     b("tetrahedron DOS reads the frequency of another band", "c/phonopy.c", "tetrahedra[l][q] = frequencies[ir_gps[l][q] * num_band + k];", "tetrahedra[l][q] = frequencies[ir_gps[l][q] * num_band + l];", "R11l", "dos[i,k,j,m]")
     b("tetrahedron DOS: weight of a new irreducible point starts at 0", "c/phonopy.c", "            weights[count] = 1;", "            weights[count] = 0;", "R11l", "tables")
     b("tetrahedron DOS: vertices of tetrahedron l taken from the transposed table", "c/phonopy.c", "                                relative_grid_address[l][q][r];", "                                relative_grid_address[q][l][r];", "R11l", "dos[i,k,j,m]")
+    b("grid index with the strides of the two lower components swapped", "c/rgrid.c", "    return (address[2] * mesh[0] * (int64_t)(mesh[1]) + address[1] * mesh[0] +\n            address[0]);", "    return (address[2] * mesh[0] + address[1]) * mesh[1] + address[0];", "R11m", "returns")
+    n("grid index in Horner form", "c/rgrid.c", "    return (address[2] * mesh[0] * (int64_t)(mesh[1]) + address[1] * mesh[0] +\n            address[0]);", "    return (address[2] * mesh[1] + address[1]) * mesh[0] + address[0];")
     return V
